@@ -29,3 +29,9 @@ Definition extract_row_ok (row : option string * list proj * option (list string
 
 Lemma extract_table_ok : forallb extract_row_ok extract_rows = true.
 Proof. vm_compute. reflexivity. Qed.
+
+(* WHERE splitting *)
+Definition filter_row_ok (row : option wexpr * list string) : bool :=
+  let '(w, res) := row in strs_eqb (match w with Some t => extract_filters t | None => [] end) res.
+Lemma filter_table_ok : forallb filter_row_ok filter_rows = true.
+Proof. vm_compute. reflexivity. Qed.
